@@ -22,6 +22,9 @@
      WindowCleaner the cleaner goroutine of one sliding window.
      Offline       compiler / updater tools (RDB.Add, Del, ExecuteBatch, NewRDB ...): not part of
                    the serving process; overlaps only itself.
+     AnyGo         default for an access to a PACKAGE-LEVEL variable by a function outside
+                   role_map: any goroutine after package initialisation; overlaps everything
+                   but Init.  Package initialisation (<pkg>.init) has role Init.
      Unknown       a function that is MISSING from role_map.  It overlaps everything (also
                    Init) and C14_roles_total fails, so new code cannot slip through.
    A function may run in several roles (db.NewReader is called by query workers, by the
@@ -49,7 +52,7 @@ Open Scope string_scope.
 Open Scope list_scope.
 
 Inductive role := Init | QueryWorker | Reloader | ReloadHelper | StatsReporter | Watcher
-                | Shutdown | WindowCleaner | Offline | Unknown.
+                | Shutdown | WindowCleaner | Offline | AnyGo | Unknown.
 
 (* reader methods: query workers, the reloader (DB.ValidateDbKey) and the map-age reporter *)
 Definition R_READER := [QueryWorker; Reloader; StatsReporter].
@@ -83,6 +86,7 @@ Definition role_map : list (string * list role) := [
   ("dnsserver.FBDNSDB.watchDBAndReload", [Watcher]);
   ("dnsserver.FBDNSDB.WatchControlDirAndReload", [Watcher]);
   ("dnsserver.FBDNSDB.watchControlDirAndReload", [Watcher]);
+  ("fbserver.Server.ReloadDB", [Watcher]);            (* SIGHUP goroutine: sends on ReloadChan *)
   (* db *)
   ("db.Open", [Init]);
   ("db.NewReader", R_READER ++ [Init]);
@@ -165,6 +169,11 @@ Definition role_map : list (string * list role) := [
   ("rdb.RDB.CreateBatch", [Offline]);
   ("rdb.RDB.ApplyDiff", [Offline]);
   ("rdb.compileBatches", [Offline]);
+  (* package initialisation (declarations of package-level variables and func init) of every
+     scanned package: happens before main *)
+  ("dnsserver.init", [Init]); ("db.init", [Init]); ("rdb.init", [Init]); ("metrics.init", [Init]);
+  ("logger.init", [Init]); ("fbserver.init", [Init]); ("whoami.init", [Init]); ("dnsdata.init", [Init]);
+  ("svcb.init", [Init]); ("stats.init", [Init]);
   (* metrics *)
   ("metrics.NewStats", [Init]);
   ("metrics.Stats.IncrementCounter", R_EVERY ++ [Init]);
@@ -187,6 +196,22 @@ Fixpoint lookup_roles (m : list (string * list role)) (f : string) : list role :
   end.
 Definition roles_of (f : string) : list role := lookup_roles role_map f.
 
+(* Package-level variables are read by many small helper functions.  For an access to a
+   package-level variable (a_global) by a function that is not in role_map the role is AnyGo:
+   any goroutine of the process at any time after package initialisation - it overlaps
+   everything (itself included) except Init.  So a write to a package-level variable outside
+   init() needs a common package-level mutex with EVERY read of it, wherever the read is.
+   For fields of the tracked types a missing function stays Unknown (and fails
+   C14_roles_total). *)
+Fixpoint in_role_map (m : list (string * list role)) (f : string) : bool :=
+  match m with
+  | [] => false
+  | (g, _) :: t => if String.eqb f g then true else in_role_map t f
+  end.
+Definition roles_of_access (a : access) : list role :=
+  if a_global a then (if in_role_map role_map (a_func a) then roles_of (a_func a) else [AnyGo])
+  else roles_of (a_func a).
+
 Definition is_unknown (r : role) : bool := match r with Unknown => true | _ => false end.
 Definition has_role (f : string) : bool :=
   negb (existsb is_unknown (roles_of f)) && negb (match roles_of f with [] => true | _ => false end).
@@ -196,6 +221,7 @@ Definition overlap (r1 r2 : role) : bool :=
   match r1, r2 with
   | Unknown, _ | _, Unknown => true
   | Init, _ | _, Init => false
+  | AnyGo, _ | _, AnyGo => true
   | Offline, Offline => true
   | Offline, _ | _, Offline => false
   | Shutdown, Shutdown => false
@@ -212,7 +238,7 @@ Definition conflicting (a b : access) : bool := same_loc a b && (is_write a || i
 Definition concurrent_roles (a b : access) : bool :=
   negb (a_fresh a) && negb (a_fresh b) &&
   (if a_local a then negb (String.eqb (a_func a) (a_func b)) else true) &&
-  existsb (fun r1 => existsb (overlap r1) (roles_of (a_func b))) (roles_of (a_func a)).
+  existsb (fun r1 => existsb (overlap r1) (roles_of_access b)) (roles_of_access a).
 
 (* the standard lockset condition: both hold the same mutex, and not both in shared mode *)
 Definition common_lock (a b : access) : bool :=
@@ -266,7 +292,7 @@ Definition flagged_pairs (t : list access) : list (access * access) :=
   filter (fun p => negb (pair_ok (fst p) (snd p))) (list_prod t t).
 
 Definition roles_total (fs : list string) (t : list access) : bool :=
-  forallb has_role fs && forallb (fun a => has_role (a_func a)) t.
+  forallb has_role fs && forallb (fun a => if a_global a then true else has_role (a_func a)) t.
 
 (* a caller of a "caller must hold" method holds every required lock, exclusively if required *)
 Definition call_ok (c : callsite) : bool :=
